@@ -20,7 +20,7 @@ SWITCHES = list(itertools.product((False, True), repeat=3))  # inbound, internal
 
 class Check(HCheck):
     pid = ID
-    owned = ("links", "crawl", "clear", "reopen", "as_str")
+    owned = ("links", "crawl", "clear", "reopen", "as_str", "as_iter", "crawl_alias")
     must_count = ("page_links_nonempty", "self_link_seen", "weight_gt1_seen", "in_and_out_on_one_page")
 
     def spaces(self, tier):
@@ -41,6 +41,8 @@ class Check(HCheck):
             al.create(Ax),
             al.rule(A, "path1"),
             al.as_str(al.LB_SRC_AND_TGT),
+            al.as_iter(al.LB_BOTHDIR),  # add_links given a one-shot iterator
+            al.crawl_alias(Ax, (Ab, Axy), (Az,)),  # same source as bytes and as str in one mapping
             al.as_str(al.CB_KNOWN),
         ]
         d = 4 if thorough else 3
